@@ -11,6 +11,8 @@ func (e *Engine) declAddrStr() {
 	e.vc.declFun("acc_str", []string{"BV"}, "Str")
 	e.vc.declFun("addr_str", []string{"Str"}, "Addr")
 	e.vc.declFun("bech32ok", []string{"Str"}, "Bool")
+	e.vc.declFun("accbv", []string{"Str"}, "BV")
+	e.vc.declSort("(assert (forall ((s Str)) (! (= (addr_acc (accbv s)) (addr_str s)) :pattern ((accbv s)))))")
 	e.vc.declSort("(assert (forall ((b BV)) (! (and (= (addr_str (acc_str b)) (addr_acc b)) (bech32ok (acc_str b))) :pattern ((acc_str b)))))")
 }
 
@@ -53,6 +55,7 @@ func init() {
 		tt := c.rt.(*types.Tuple)
 		ok := e.vc.define("b32ok", "Bool", app("bech32ok", c.args[0].S))
 		v := e.freshVal(c.st, "acc", tt.At(0).Type())
+		e.assumeIn(c.st, implies(ok, eq(e.bvOf(c.st, v), app("accbv", c.args[0].S))))
 		e.assumeIn(c.st, implies(ok, eq(app("addr_acc", e.bvOf(c.st, v)), app("addr_str", c.args[0].S))))
 		e.assumeIn(c.st, implies(ok, eq(app("acc_str", e.bvOf(c.st, v)), c.args[0].S)))
 		er := c.freshErr("b32err")
@@ -63,6 +66,7 @@ func init() {
 		e.declAddrStr()
 		c.obl("panic.lib", "MustAccAddressFromBech32_invalid", app("bech32ok", c.args[0].S))
 		v := e.freshVal(c.st, "acc", c.rt)
+		e.assumeIn(c.st, eq(e.bvOf(c.st, v), app("accbv", c.args[0].S)))
 		e.assumeIn(c.st, eq(app("addr_acc", e.bvOf(c.st, v)), app("addr_str", c.args[0].S)))
 		e.assumeIn(c.st, eq(app("acc_str", e.bvOf(c.st, v)), c.args[0].S))
 		return v
